@@ -60,7 +60,7 @@ class RecordingSession:
         m = re.match(r"http://([0-9.]+):5000/api/v1alpha/batches/(\d+)/jobs/(\d+)/delete$", url)
         if not m:
             raise RuntimeError(f"unexpected DELETE {url}")
-        self.deleted.add((int(m.group(3)), self.ip_to_inst[m.group(1)]))
+        self.deleted.add((int(m.group(3)), self.ip_to_inst.get(m.group(1), m.group(1))))
 
     async def post(self, url, *a, **k):
         self.log.append(("POST", url))
